@@ -146,6 +146,27 @@ class BpHarness:
             kobj = SymmetricKey(k=bytes.fromhex(key['k']), optional_params={
                 'KID': key['kid'].encode(), 'ALG': algs[key['alg']], 'KEY_OPS': ops[key['ops']]})
             ctx.sym_key_store[key['kid'].encode()] = kobj
+        pki_cfg = sec.get('pki')
+        if pki_cfg:
+            # the signing path (COSE_Sign1): what CoseContext.load_config() does with sign_key_file / sign_cert_file / verify_ca_file
+            from scenarios import pki
+            from bp.crypto import encode_der_cert
+            mat = pki.get(pki_cfg.get('source', 'dtn://s/'))
+            agent._config.integrity_include_chain = bool(pki_cfg.get('include_chain', True))
+            ctx._config = agent._config
+            if pki_cfg.get('sign'):
+                ctx._cert_chain = [mat['end_cert']]
+                cose_key = ctx.extract_cose_key(mat['end_key'])
+                cose_key.kid = b'PEM'
+                cose_key.key_ops = [keyops.SignOp]
+                ctx.asym_key_store[cose_key.kid] = cose_key
+            trust = pki_cfg.get('trust')
+            if trust in ('right', 'wrong'):
+                ctx._ca_certs = [mat['ca_cert'] if trust == 'right' else mat['wrong_ca_cert']]
+                for cert in ctx._ca_certs:
+                    ctx.cert_store.add_untrusted_cert(encode_der_cert(cert))
+            if pki_cfg.get('knows_end_cert'):
+                ctx.cert_store.add_untrusted_cert(encode_der_cert(mat['end_cert']))
         for pol in sec.get('policies', []):
             templates = []
             for tpl in pol['ops']:
